@@ -90,7 +90,7 @@ Print Assumptions C12_model_live_partial.
    map or a snapshot) anywhere in the history.  [m] is the build profile; proofs in Proofs/C12xen.v.
    y_live / y_unmaps: the region's own memory mapping and the munmap calls for it; y_gnt / y_gunmaps: its grant mapping
    in the device and the unmap requests for it. *)
-From VM Require Import Prelude.Outcome Impl.MmapBuild Impl.Xen Impl.OwnerXen Proofs.C12xen.
+From VM Require Import Prelude.Outcome Impl.MmapBuild Impl.Xen Impl.OwnerXen Spec.C12xen Suite.C12xen Proofs.C12xen Proofs.C12xenLink.
 
 Theorem C12x_strong_counts : forall m l r, r < ynreg (yrun m l) ->
   y_strong (yreg (yrun m l) r) = yowners r (yrun m l) /\ y_ub (yreg (yrun m l) r) = false.
@@ -172,6 +172,27 @@ Proof.
   exists 2%nat, (HMap [0; 1]). split; vm_compute; [reflexivity|left; reflexivity].
 Qed.
 
+(* the machine's account of the Xen objects agrees with the transcription of the constructors and Drop impls in
+   Impl/Xen.v (xen_from_range, xen_drop - the model the C15 / C17 packages tie to src/mmap/xen.rs) for EVERY region the
+   machine can create: kind < 4, fewer than 100 regions, slot < 16 (the bounds of [yexec (YCreate ..)] and of the
+   harness), both build profiles - a finite domain of 12800 combinations checked by evaluation ([ytab_ok]: built; takes
+   windows on demand iff kind 3; owns a mapping iff kind <> 3; one map request for its whole range iff kind 2; Drop =
+   one munmap iff kind <> 3, one unmap request with the same index and count iff kind 2) *)
+Theorem C12x_objects_match_Xen : forall m kind id slot, kind < 4 -> id < 100 -> slot < 16 -> ytab_ok m kind id slot = true.
+Proof. exact objects_match_Xen_lemma. Qed.
+
+(* FULL STATEMENT NOT PROVED:  forall m ops, ok_C12x ops (run_C12x m ops) = true  (for well-formed ops).
+   Proved: the live and gnt components of every observation the machine produces are the ones the checker demands,
+   with "reachable" read through the owner count; missing (as for C12_model_ok above): the simulation between the
+   checker's per-handle region lists and the machine's for st / val, and the event discipline of ok_C12x, which are
+   tied to the machine by evaluation on every generated case only. *)
+Theorem C12x_model_live_partial : forall m l,
+  ymask_live (yrun m l) = mask_upto (N.to_nat (ynreg (yrun m l)))
+     (fun r => negb (y_kind (yreg (yrun m l) r) =? 3) && negb (Nat.eqb (yowners r (yrun m l)) 0)) /\
+  ymask_gnt (yrun m l) = mask_upto (N.to_nat (ynreg (yrun m l)))
+     (fun r => (y_kind (yreg (yrun m l) r) =? 2) && negb (Nat.eqb (yowners r (yrun m l)) 0)).
+Proof. exact ymodel_live_lemma. Qed.
+
 Print Assumptions C12x_strong_counts.
 Print Assumptions C12x_live_iff_owner.
 Print Assumptions C12x_ondemand_owns_nothing.
@@ -181,3 +202,5 @@ Print Assumptions C12x_no_leak.
 Print Assumptions C12x_access_changes_nothing.
 Print Assumptions C12x_access_released.
 Print Assumptions C12x_access_advance_silent.
+Print Assumptions C12x_objects_match_Xen.
+Print Assumptions C12x_model_live_partial.
